@@ -44,6 +44,7 @@ type Obligation struct {
 
 // Ctx collects the obligations of one property run.
 type Ctx struct {
+	remap  string
 	P      *Program
 	Prop   string
 	Tier   string
@@ -60,7 +61,19 @@ func newCtx(p *Program, prop, tier string) *Ctx {
 	return &Ctx{P: p, Prop: prop, Tier: tier, floors: map[string]int{}, seen: map[string]bool{}, funcs: map[string]bool{}}
 }
 
+// withRule runs f with every rule id it emits replaced by `rule` (and floors ignored): used to report a group of
+// rules that was written for one property under another property that depends on the same facts.
+func (c *Ctx) withRule(rule string, f func()) {
+	old := c.remap
+	c.remap = rule
+	defer func() { c.remap = old }()
+	f()
+}
+
 func (c *Ctx) add(rule, key, pos string, st Status, detail string, trivial bool) *Obligation {
+	if c.remap != "" {
+		rule = c.remap
+	}
 	full := c.Prop + "." + rule
 	k := full + "|" + key
 	// keys must be unique: disambiguate repeated constructs by ordinal
@@ -84,7 +97,12 @@ func (c *Ctx) ok(rule, key, pos, detail string)  { c.add(rule, key, pos, Dischar
 func (c *Ctx) okT(rule, key, pos, detail string) { c.add(rule, key, pos, Discharged, detail, true) }
 func (c *Ctx) bad(rule, key, pos, detail string) { c.add(rule, key, pos, Violated, detail, false) }
 func (c *Ctx) und(rule, key, pos, detail string) { c.add(rule, key, pos, Undecided, detail, false) }
-func (c *Ctx) floor(rule string, n int)          { c.floors[c.Prop+"."+rule] = n }
+func (c *Ctx) floor(rule string, n int) {
+	if c.remap != "" {
+		return
+	}
+	c.floors[c.Prop+"."+rule] = n
+}
 func (c *Ctx) note(format string, a ...any)      { c.notes = append(c.notes, fmt.Sprintf(format, a...)) }
 func (c *Ctx) assumes(s ...string)               { c.assume = append(c.assume, s...) }
 func (c *Ctx) trusted(s ...string)               { c.trust = append(c.trust, s...) }
